@@ -146,6 +146,12 @@ def build(case):
     elif tr["kind"] == "unrooted":
         tree = {"id": "tree", "type": "UnRootedTreeModel", "newick": nwk, "taxa": taxa,
                 "branch_lengths": impl.param_json("bl", tr["bl"])}
+    elif tr["kind"] != "unrooted" and tr.get("newick"):
+        # a time tree written with its branch lengths in the newick string (keep_branch_lengths)
+        tree = {"id": "tree", "type": "ReparameterizedTimeTreeModel", "newick": tr["newick"], "taxa": taxa,
+                "keep_branch_lengths": True,
+                "ratios": impl.param_json("ratios", [0.5] * (n - 2)),
+                "root_height": impl.param_json("root_height", [max(dates) + 1.0])}
     elif tr.get("plain_heights") is not None:
         # the same time tree held by a plain TimeTreeModel (internal heights are the parameter)
         tree = {"id": "tree", "type": "TimeTreeModel", "newick": nwk, "taxa": taxa,
@@ -452,12 +458,16 @@ def run(tier, seed, replay=None):
     torch = impl.load()
     big, nbig = [], (560 if tier == "quick" else 640)
     brng = random.Random(seed + 29)
-    for shape, sub, x in (("random", dict(type="HKY", kappa=2.5, freqs=[0.15, 0.35, 0.3, 0.2]), 0.25),
-                          ("caterpillar", dict(type="JC69"), 0.6)):
+    for shape, sub, x in (("random", dict(type="HKY", kappa=2.5, freqs=[0.15, 0.35, 0.3, 0.2]), 1.2),
+                          ("caterpillar", dict(type="JC69"), 1.0)):
         try:
             tb = c03.make_tree(shape, nbig, brng)
             lkb, _ = c03.build(shape, nbig, tb, sub, x)
             vals = [float(lkb().detach()), float(lkb().detach())]
+            if not lkb.rescale:      # the case is only worth something if the plain recursion underflowed
+                rep.violation("C01:large-tree-did-not-underflow", f"{shape} tree with {nbig} taxa at branch scale {x}: "
+                              f"the plain recursion did not underflow, the case does not exercise the other code paths",
+                              dict(shape=shape, n=nbig, x=x), False)
             Ms = [lkb.subst_model.p_t(torch.tensor([x * f])).detach().reshape(4, 4).tolist() for f in (1.0, 1.75)]
             fr = [float(v) for v in lkb.subst_model.frequencies.detach().reshape(-1)]
             big.append((shape, sub, x, tb, vals, c03.coq_case(shape, nbig, tb, Ms, fr)))
